@@ -29,6 +29,10 @@ RULE = ("cases drawn from one PRNG (VERIF_SEED), one fresh file each; files hold
         "DFSDsetdimscale (a scale or NULL), DFSDsetdatastrs, DFSDsetdimstrs, DFSDsetrange, DFSDadddata, DFSDclear - with no "
         "reset the sequence does not contain, steered towards set/write/remove/write and set/write/write; the raster "
         "writers likewise call DFR8setpalette / DF24setil only when the setting in effect changes; "
+        "in half of the cases a second, different file holding objects under the same tag/refs (labels, descriptions, a "
+        "dataset with scale, an 8-bit image with palette, a 24-bit image) is written and read through every single-file "
+        "reader of the same process before the case's file is read; DFR8/DF24 images are read a second time by a caller "
+        "that knows the dimensions and calls DFR8getimage / DF24getimage alone (no dimension query in between); "
         "(sds) 1-6 datasets of rank 1-4, extents 1-5, "
         "every 8/16/32-bit integer, char and float32/64 type in standard, little-endian and native flavour, optional "
         "unlimited first dimension, written by DFSDadddata | SDcreate+SDwritedata | nccreate/ncdimdef/ncvardef/ncvarput "
@@ -891,7 +895,9 @@ def run(ctx):
              "files_with_more_than_ten_dimension_variables": 0, "reads_into_larger_array": {"DFSDgetdata": 0, "DFSDgetslice": 0,
              "DFSDreadslab": 0, "DFR8getimage": 0}, "larger_in_non_leading_dimension": 0,
              "writer_sessions": 0, "session_ops": {}, "sessions_scale_removed_between_datasets": 0,
-             "sessions_scale_kept_between_datasets": 0, "lazy_raster_writers": 0}
+             "sessions_scale_kept_between_datasets": 0, "lazy_raster_writers": 0,
+             "cases_with_another_file_read_in_between": 0, "reads_without_dimension_query": 0,
+             "files_with_8bit_image_before_24bit_image": 0}
     nviol = 0
     for cid, c in cases:
         R, S = Rd.get(cid, []), Sd.get(cid, [])
@@ -929,6 +935,14 @@ def run(ctx):
             stats["reads_into_larger_array"]["DFR8getimage"] += 1
         if k == "img" and (c.get("pad", 0) >> 14) & 1:
             stats["lazy_raster_writers"] += 1
+        if (k in ("sds", "img") and (c.get("pad", 0) >> 15) & 1) or (k == "ann" and c.get("decoy")) or \
+                (k == "dfsdseq" and len(c["ops"]) & 1):
+            stats["cases_with_another_file_read_in_between"] += 1
+        stats["reads_without_dimension_query"] += sum(1 for l in R if l.startswith(("df24s ", "dfr8s ")))
+        if k == "img":
+            ncs = [o["nc"] for o in c["objs"]]
+            if any(a == 1 and 3 in ncs[i + 1:] for i, a in enumerate(ncs)):
+                stats["files_with_8bit_image_before_24bit_image"] += 1
         if k == "dfsdseq":
             stats["writer_sessions"] += 1
             have, wrote, rem, kept = set(), False, False, False
